@@ -24,6 +24,12 @@ def a_cases(tier):
                 cs.append(F.pair(ch, end=5 if q else 7, starts=starts, pull_initial=pi))
         if ch[0][0] != "F":
             cs.append(F.pair(ch, end=5 if q else 7, starts=(2, 0), order=("B", "A")))
+    # a very fine producer under a coarse consumer: well over a thousand publications inside one integration interval
+    for ch in ([["A", None]], [["A", 0.5]], [["M", 0.0, True]], [["M", None, False]]):
+        c = F.pair(ch)
+        c["comps"][0]["fixed"], c["comps"][1]["fixed"] = [1 / 64], [26, 21.5]
+        c["end"], c["update_cap"] = 30, 20000
+        cs.append(c)
     return cs
 
 
